@@ -208,6 +208,14 @@ From Gst Require Import C19.ProofsLoc.
 
 Definition tch_simu (t : Z) : bool := t =? L_SIMU.
 
+(* without fixes/C19_8.patch (g_ver bit 2 clear) *)
+Lemma simu_add_off c w status n slot : ver_bit c 2 = false -> simu_add c w status n slot = [OAdd w status L_SIMU n (Cst 0) slot].
+Proof. intro H. unfold simu_add. rewrite H. reflexivity. Qed.
+Lemma simu_restore_off c : ver_bit c 2 = false -> simu_restore c = [].
+Proof. intro H. unfold simu_restore. rewrite H. reflexivity. Qed.
+Lemma rollback_simu_off c r : ver_bit c 2 = false -> rollback_simu c r = rollback_std c r.
+Proof. intro H. unfold rollback_simu, rollback_std. rewrite (simu_restore_off c H). reflexivity. Qed.
+
 Lemma pre_interp_safeT rb c din dout :
   expand_noop L_F din dout = true -> expand_noop L_NOSTAT din dout = true ->
   forallb (safe_opT tch_simu rb din dout) (pre_interp c) = true.
@@ -218,38 +226,41 @@ Proof.
 Qed.
 
 Lemma simfft_atomic c gout din dout fs fk s' :
-  Inv din -> Inv dout -> getloc (d_locs din) L_SIMU = [] -> getloc (d_locs dout) L_SIMU = [] ->
+  Inv din -> Inv dout -> ver_bit c 2 = false -> getloc (d_locs din) L_SIMU = [] -> getloc (d_locs dout) L_SIMU = [] ->
   expand_noop L_F din dout = true -> expand_noop L_NOSTAT din dout = true -> fs <> 4 ->
   calc_run (simfft c gout) (init_st din dout false) fs fk = (false, s') ->
   (db_eq (s_in s') din /\ Inv (s_in s')) /\ (db_eq (s_out s') dout /\ Inv (s_out s')).
 Proof.
-  intros Hi Ho Si So HF HN Hfs Hrun.
+  intros Hi Ho Hv2 Si So HF HN Hfs Hrun.
   assert (Hti : forall t, tch_simu t = true -> getloc (d_locs din) t = []).
   { intros t Ht. apply Z.eqb_eq in Ht. subst t. exact Si. }
   assert (Hto : forall t, tch_simu t = true -> getloc (d_locs dout) t = []).
   { intros t Ht. apply Z.eqb_eq in Ht. subst t. exact So. }
   assert (Hpre : forallb (safe_opT tch_simu (k_rollback (simfft c gout)) din dout) (k_pre (simfft c gout)) = true).
-  { simpl. rewrite forallb_app. rewrite pre_interp_safeT by assumption. reflexivity. }
+  { cbn [k_pre k_rollback simfft]. rewrite simu_add_off, rollback_simu_off by exact Hv2. rewrite forallb_app. rewrite pre_interp_safeT by assumption.
+    cbn [forallb safe_opT]. rewrite (rollback_std_cleans c false 1) by (left; reflexivity). reflexivity. }
   assert (Hpost : forall s, TrackedT tch_simu (k_rollback (simfft c gout)) din dout s ->
                             fst (exec_ops (k_nc (simfft c gout)) (k_post (simfft c gout)) s None) = true).
-  { intros s _. apply exec_ops_cannot_fail. reflexivity. }
-  exact (atomic_touched (simfft c gout) tch_simu din dout fs fk s' Hi Ho eq_refl Hti Hto eq_refl Hpre eq_refl (rollback_std_clean c) Hpost Hfs Hrun).
+  { intros s _. apply exec_ops_cannot_fail. cbn [k_post simfft]. rewrite simu_restore_off by exact Hv2. reflexivity. }
+  assert (Hrb : forallb only_clean (k_rollback (simfft c gout)) = true).
+  { cbn [k_rollback simfft]. rewrite rollback_simu_off by exact Hv2. apply rollback_std_clean. }
+  exact (atomic_touched (simfft c gout) tch_simu din dout fs fk s' Hi Ho eq_refl Hti Hto eq_refl Hpre eq_refl Hrb Hpost Hfs Hrun).
 Qed.
 
 Lemma simtub_atomic c gout din dout fs fk s' :
-  Inv din -> Inv dout -> g_dgm c = false -> (g_has_in c = false \/ g_rb2 c = true) ->
+  Inv din -> Inv dout -> ver_bit c 2 = false -> g_dgm c = false -> (g_has_in c = false \/ g_rb2 c = true) ->
   getloc (d_locs din) L_SIMU = [] -> getloc (d_locs dout) L_SIMU = [] ->
   expand_noop L_F din dout = true -> expand_noop L_NOSTAT din dout = true -> fs <> 4 ->
   calc_run (simtub c gout) (init_st din dout false) fs fk = (false, s') ->
   (db_eq (s_in s') din /\ Inv (s_in s')) /\ (db_eq (s_out s') dout /\ Inv (s_out s')).
 Proof.
-  intros Hi Ho Hd Hrb2 Si So HF HN Hfs Hrun.
+  intros Hi Ho Hv2 Hd Hrb2 Si So HF HN Hfs Hrun.
   assert (Hti : forall t, tch_simu t = true -> getloc (d_locs din) t = []).
   { intros t Ht. apply Z.eqb_eq in Ht. subst t. exact Si. }
   assert (Hto : forall t, tch_simu t = true -> getloc (d_locs dout) t = []).
   { intros t Ht. apply Z.eqb_eq in Ht. subst t. exact So. }
   assert (Hpre : forallb (safe_opT tch_simu (k_rollback (simtub c gout)) din dout) (k_pre (simtub c gout)) = true).
-  { cbn [k_pre k_rollback simtub]. rewrite Hd. cbn [andb app]. rewrite !forallb_app. rewrite pre_interp_safeT by assumption.
+  { cbn [k_pre k_rollback simtub]. rewrite !simu_add_off, rollback_simu_off by exact Hv2. rewrite Hd. cbn [andb app]. rewrite !forallb_app. rewrite pre_interp_safeT by assumption.
     assert (Hout : forallb (safe_opT tch_simu (rollback_std c false) din dout)
                      [OAdd WOut 1 L_SIMU (K (g_mnvar c * g_nbsimu c)) (Cst 0) 0%nat] = true).
     { cbn [forallb safe_opT]. rewrite (rollback_std_cleans c false 1) by (left; reflexivity). reflexivity. }
@@ -258,16 +269,163 @@ Proof.
     - destruct (g_has_in c); [|reflexivity]. cbn [forallb safe_opT].
       rewrite (rollback_std_cleans c false 2) by (right; exact H). reflexivity. }
   assert (Hrb : forallb only_clean (k_rollback (simtub c gout)) = true).
-  { cbn [k_rollback simtub]. rewrite Hd. apply rollback_std_clean. }
+  { cbn [k_rollback simtub]. rewrite rollback_simu_off by exact Hv2. rewrite Hd. apply rollback_std_clean. }
   assert (Hpost : forall s, TrackedT tch_simu (k_rollback (simtub c gout)) din dout s ->
                             fst (exec_ops (k_nc (simtub c gout)) (k_post (simtub c gout)) s None) = true).
-  { intros s T. cbn [k_post k_nc simtub]. rewrite Hd. rewrite app_nil_r.
+  { intros s T. cbn [k_post k_nc simtub]. rewrite simu_restore_off by exact Hv2. rewrite Hd. rewrite !app_nil_r.
     assert (T1 : TrackedT tch_simu (k_rollback (simtub c gout)) din dout (clean_variables 2 s)).
-    { apply (exec_op_safeT din dout Hi Ho tch_simu eq_refl Hti Hto _ (g_nc c) (OClean 2) s true); [exact T | reflexivity | reflexivity]. }
+    { apply (exec_op_safeT din dout Hi Ho tch_simu eq_refl _ (g_nc c) (OClean 2) s true); [exact T | reflexivity | reflexivity]. }
     destruct (ver_bit c 1); cbn [app exec_ops exec_op option_map].
     - reflexivity.
     - rewrite (expand_noop_sameT din dout tch_simu eq_refl _ L_F _ T1 HF eq_refl).
       rewrite (expand_noop_sameT din dout tch_simu eq_refl _ L_NOSTAT _ T1 HN eq_refl).
       reflexivity. }
   exact (atomic_touched (simtub c gout) tch_simu din dout fs fk s' Hi Ho eq_refl Hti Hto eq_refl Hpre eq_refl Hrb Hpost Hfs Hrun).
+Qed.
+
+(* ------------------------------------------------------------------ further instances *)
+Lemma wf_simupost c gout quals din dout : wf_atomic (simupost c gout quals) din dout = true.
+Proof.
+  unfold wf_atomic, simupost; cbn [k_init k_pre k_run k_post k_rollback is_nil].
+  rewrite rollback_std_clean. cbn [forallb safe_op Z.ltb Z.compare andb].
+  rewrite (rollback_std_cleans c false 1) by (left; reflexivity). cbn [andb].
+  assert (forallb cannot_fail
+            (map (fun p : nat * str => ORename (if g_mode c =? 1 then WOut else WIn) no_names (-1) (K 0) 0%nat (Z.of_nat (fst p)) (snd p) (K 1) true)
+                 (combine (seq 0 (length quals)) quals)) = true) as ->; [|reflexivity].
+  apply forallb_forall. intros o Ho. apply in_map_iff in Ho as [p [<- _]]. reflexivity.
+Qed.
+
+Lemma wf_eden_pre c gout din dout :
+  expand_noop L_F din dout = true -> expand_noop L_NOSTAT din dout = true ->
+  forallb (safe_op (rollback_std c false) din dout) (k_pre (eden c gout)) = true.
+Proof.
+  intros HF HN. cbn [k_pre eden]. rewrite !forallb_app. rewrite pre_interp_safe by assumption.
+  destruct (g_mode c =? 1); cbn [forallb safe_op Z.ltb Z.compare andb];
+    rewrite (rollback_std_cleans c false 1) by (left; reflexivity); reflexivity.
+Qed.
+
+(* tessellation_voronoi / substitution: one variable with the SIMU locator *)
+Lemma simu1_atomic c gout din dout fs fk s' :
+  Inv din -> Inv dout -> ver_bit c 2 = false -> g_mode c <> 1 -> getloc (d_locs din) L_SIMU = [] -> getloc (d_locs dout) L_SIMU = [] ->
+  expand_noop L_F din dout = true -> expand_noop L_NOSTAT din dout = true -> fs <> 4 ->
+  calc_run (simu1 c gout) (init_st din dout false) fs fk = (false, s') ->
+  (db_eq (s_in s') din /\ Inv (s_in s')) /\ (db_eq (s_out s') dout /\ Inv (s_out s')).
+Proof.
+  intros Hi Ho Hv2 Hm Si So HF HN Hfs Hrun.
+  assert (Hti : forall t, tch_simu t = true -> getloc (d_locs din) t = []).
+  { intros t Ht. apply Z.eqb_eq in Ht. subst t. exact Si. }
+  assert (Hto : forall t, tch_simu t = true -> getloc (d_locs dout) t = []).
+  { intros t Ht. apply Z.eqb_eq in Ht. subst t. exact So. }
+  assert (Em : (g_mode c =? 1) = false) by (apply Z.eqb_neq; exact Hm).
+  assert (Hpre : forallb (safe_opT tch_simu (k_rollback (simu1 c gout)) din dout) (k_pre (simu1 c gout)) = true).
+  { cbn [k_pre k_rollback simu1]. rewrite simu_add_off, rollback_simu_off by exact Hv2. rewrite forallb_app. rewrite pre_interp_safeT by assumption.
+    cbn [forallb safe_opT]. rewrite (rollback_std_cleans c false 1) by (left; reflexivity). reflexivity. }
+  assert (Hrun' : forallb (safe_opT tch_simu (k_rollback (simu1 c gout)) din dout) (k_run (simu1 c gout)) = true).
+  { cbn [k_run simu1]. rewrite Em. reflexivity. }
+  assert (Hpost : forall s, TrackedT tch_simu (k_rollback (simu1 c gout)) din dout s ->
+                            fst (exec_ops (k_nc (simu1 c gout)) (k_post (simu1 c gout)) s None) = true).
+  { intros s _. apply exec_ops_cannot_fail. cbn [k_post simu1]. rewrite simu_restore_off by exact Hv2. reflexivity. }
+  assert (Hrb : forallb only_clean (k_rollback (simu1 c gout)) = true).
+  { cbn [k_rollback simu1]. rewrite rollback_simu_off by exact Hv2. apply rollback_std_clean. }
+  exact (atomic_touched (simu1 c gout) tch_simu din dout fs fk s' Hi Ho eq_refl Hti Hto eq_refl Hpre Hrun' Hrb Hpost Hfs Hrun).
+Qed.
+
+Lemma expand_noop_self t d : t <> L_X -> expand_noop t d d = true.
+Proof.
+  intro H. unfold expand_noop. assert ((t =? L_X) = false) as -> by (apply Z.eqb_neq; exact H).
+  rewrite andb_false_r. rewrite Z.eqb_refl. apply orb_true_r.
+Qed.
+
+(* ------------------------------------------------------------------ DGM: the coordinate locators are moved and given back *)
+From Gst Require Import C19.ProofsRestore.
+
+Definition tch_none (t : Z) : bool := false.
+
+Lemma rollback_std_dgm c : g_rb2 c = true -> rollback_std c true = [OClean 1; OClean 2; ORestoreX].
+Proof. intro H. unfold rollback_std. rewrite H. reflexivity. Qed.
+
+Lemma safe_opsD_app tch rb din dout a : forall allow b,
+  forallb (safe_opD tch rb din dout) a = true -> (forall o, In o a -> o <> OCenter) ->
+  safe_opsD tch rb din dout allow (a ++ b) = safe_opsD tch rb din dout allow b.
+Proof.
+  induction a as [|o r IH]; intros allow b Hs Hn; [reflexivity|].
+  simpl in Hs. apply andb_true_iff in Hs as [Ho Hr].
+  assert (o <> OCenter) as Hne by (apply Hn; left; reflexivity).
+  destruct o; try contradiction; cbn [app safe_opsD]; rewrite Ho; cbn [andb]; apply IH; try exact Hr; intros x Hx; apply Hn; right; exact Hx.
+Qed.
+
+Lemma pre_interp_safeD tch rb c din dout :
+  expand_noop L_F din dout = true -> expand_noop L_NOSTAT din dout = true -> tch L_F = false -> tch L_NOSTAT = false ->
+  forallb (safe_opD tch rb din dout) (pre_interp c) = true /\ (forall o, In o (pre_interp c) -> o <> OCenter).
+Proof.
+  intros HF HN TF TN. unfold pre_interp. split.
+  - rewrite forallb_app. apply andb_true_intro; split.
+    + apply forallb_if. simpl. rewrite HF, TF. reflexivity.
+    + simpl. rewrite HN, TN. reflexivity.
+  - intros o Ho. apply in_app_iff in Ho as [Ho|Ho].
+    + destruct ((0 <? g_mndim c) && (0 <? g_nfex c)); [|contradiction]. destruct Ho as [<-|[]]. discriminate.
+    + destruct Ho as [<-|[]]. discriminate.
+Qed.
+
+Lemma kriging_dgm_atomic c gout din dout fs fk s' :
+  Inv din -> Inv dout -> g_dgm c = true -> g_rb2 c = true ->
+  expand_noop L_F din dout = true -> expand_noop L_NOSTAT din dout = true ->
+  d_grid din = false -> NoDup (getloc (d_locs din) L_X) ->
+  (forall u, In u (getloc (d_locs din) L_X) -> has_col din u = true) ->
+  (forall u t, In u (getloc (d_locs din) L_X) -> t <> L_X -> ~ In u (getloc (d_locs din) t)) ->
+  fs <> 4 ->
+  calc_run (kriging c gout) (init_st din dout false) fs fk = (false, s') ->
+  (db_eq (s_in s') din /\ Inv (s_in s')) /\ (db_eq (s_out s') dout /\ Inv (s_out s')).
+Proof.
+  intros Hi Ho Hd Hrb2 HF HN Hpts Hnd Hlive Honly Hfs Hrun.
+  assert (Hrb : k_rollback (kriging c gout) = [OClean 1; OClean 2; ORestoreX]).
+  { cbn [k_rollback kriging]. rewrite Hd. apply rollback_std_dgm; exact Hrb2. }
+  assert (Hcl : forall status, cleans [OClean 1; OClean 2; ORestoreX] status = true).
+  { intro status. unfold cleans, is_perm. simpl. destruct (status =? 1); reflexivity. }
+  destruct (pre_interp_safeD tch_none (k_rollback (kriging c gout)) c din dout HF HN eq_refl eq_refl) as [P1 P2].
+  assert (Hpre : safe_opsD tch_none (k_rollback (kriging c gout)) din dout true (k_pre (kriging c gout)) = true).
+  { cbn [k_pre kriging]. unfold kriging_pre. rewrite safe_opsD_app by assumption. rewrite Hrb, Hd.
+    destruct (g_est c), (g_std c), (g_varz c), (g_neigh_only c), gout; cbn [andb app safe_opsD safe_opD Z.ltb Z.compare orb]; rewrite ?Hcl; reflexivity. }
+  assert (Hpost : forall s, TrackedD tch_none (k_rollback (kriging c gout)) din dout s ->
+                            fst (exec_ops (k_nc (kriging c gout)) (k_post (kriging c gout)) s None) = true).
+  { intros s _. apply exec_ops_cannot_fail. cbn [k_post kriging]. unfold kriging_post. rewrite Hd. split_ifs; reflexivity. }
+  exact (atomic_dgm (kriging c gout) tch_none din dout fs fk s' Hi Ho eq_refl (fun t H => False_ind _ (Bool.diff_false_true H))
+           (fun t H => False_ind _ (Bool.diff_false_true H)) Hpts Hnd Hlive Honly eq_refl Hrb Hpre eq_refl Hpost Hfs Hrun).
+Qed.
+
+Lemma simtub_dgm_atomic c gout din dout fs fk s' :
+  Inv din -> Inv dout -> ver_bit c 2 = false -> g_dgm c = true -> g_rb2 c = true ->
+  getloc (d_locs din) L_SIMU = [] -> getloc (d_locs dout) L_SIMU = [] ->
+  expand_noop L_F din dout = true -> expand_noop L_NOSTAT din dout = true ->
+  d_grid din = false -> NoDup (getloc (d_locs din) L_X) ->
+  (forall u, In u (getloc (d_locs din) L_X) -> has_col din u = true) ->
+  (forall u t, In u (getloc (d_locs din) L_X) -> t <> L_X -> ~ In u (getloc (d_locs din) t)) ->
+  fs <> 4 ->
+  calc_run (simtub c gout) (init_st din dout false) fs fk = (false, s') ->
+  (db_eq (s_in s') din /\ Inv (s_in s')) /\ (db_eq (s_out s') dout /\ Inv (s_out s')).
+Proof.
+  intros Hi Ho Hv2 Hd Hrb2 Si So HF HN Hpts Hnd Hlive Honly Hfs Hrun.
+  assert (Hti : forall t, tch_simu t = true -> getloc (d_locs din) t = []).
+  { intros t Ht. apply Z.eqb_eq in Ht. subst t. exact Si. }
+  assert (Hto : forall t, tch_simu t = true -> getloc (d_locs dout) t = []).
+  { intros t Ht. apply Z.eqb_eq in Ht. subst t. exact So. }
+  assert (Hrb : k_rollback (simtub c gout) = [OClean 1; OClean 2; ORestoreX]).
+  { cbn [k_rollback simtub]. rewrite rollback_simu_off by exact Hv2. rewrite Hd. apply rollback_std_dgm; exact Hrb2. }
+  assert (Hcl : forall status, cleans [OClean 1; OClean 2; ORestoreX] status = true).
+  { intro status. unfold cleans, is_perm. simpl. destruct (status =? 1); reflexivity. }
+  destruct (pre_interp_safeD tch_simu (k_rollback (simtub c gout)) c din dout HF HN eq_refl eq_refl) as [P1 P2].
+  assert (Hpre : safe_opsD tch_simu (k_rollback (simtub c gout)) din dout true (k_pre (simtub c gout)) = true).
+  { cbn [k_pre simtub]. rewrite !simu_add_off by exact Hv2. rewrite safe_opsD_app by assumption. rewrite Hrb, Hd.
+    destruct (g_has_in c), gout; cbn [andb app safe_opsD safe_opD Z.ltb Z.compare orb tch_simu Z.eqb L_SIMU Pos.eqb loc_ok Z.leb]; rewrite ?Hcl; reflexivity. }
+  assert (Hpost : forall s, TrackedD tch_simu (k_rollback (simtub c gout)) din dout s ->
+                            fst (exec_ops (k_nc (simtub c gout)) (k_post (simtub c gout)) s None) = true).
+  { intros s T. cbn [k_post k_nc simtub]. rewrite simu_restore_off by exact Hv2. rewrite Hd. rewrite app_nil_r.
+    assert (T1 : TrackedD tch_simu (k_rollback (simtub c gout)) din dout (clean_variables 2 s)).
+    { apply (exec_op_safeD din dout Hi Ho tch_simu _ (g_nc c) (OClean 2) s true); [exact T | reflexivity | reflexivity]. }
+    destruct (ver_bit c 1); cbn [app exec_ops exec_op option_map].
+    - reflexivity.
+    - rewrite (expand_noop_sameD din dout tch_simu _ L_F _ T1 HF eq_refl) by discriminate.
+      rewrite (expand_noop_sameD din dout tch_simu _ L_NOSTAT _ T1 HN eq_refl) by discriminate.
+      reflexivity. }
+  exact (atomic_dgm (simtub c gout) tch_simu din dout fs fk s' Hi Ho eq_refl Hti Hto Hpts Hnd Hlive Honly eq_refl Hrb Hpre eq_refl Hpost Hfs Hrun).
 Qed.
